@@ -732,6 +732,11 @@ def _run(case: Dict[str, Any], sim: Sim, world: World) -> None:
             if (c_slow is not None) != truth3:
                 raise Violation(PROP, site, "verdict_wrong", "caller's node_match", {"got": c_slow is not None, "reference": truth3,
                                                                                      "a": a["spec"], "b": b["spec"]})
+            # graph_isomorphism with the caller's node matcher and use_defaults=True: the default bond-order matcher still applies
+            g_c = bool(gmorph.graph_isomorphism(a["g"], b["g"], node_match=by_charge, use_defaults=True))
+            if g_c != truth3:
+                raise Violation(PROP, "graph_morphism.graph_isomorphism", "verdict_wrong", "caller's node_match, use_defaults=True",
+                                {"got": g_c, "reference": truth3, "a": a["spec"], "b": b["spec"]})
             sim.state(("giso", got, len(ra.nodes)))
             sim.event("q_giso", {"got": got})
         elif k == "q_find":
